@@ -152,6 +152,10 @@ Fixpoint srv_answers (ans : list answer) : list (Z * Z * Z * list Z) :=
   | AnsOther :: r => srv_answers r
   end.
 
+(* the same as an application would see it in a record whose target string is present *)
+Definition expected_view (a : Z * Z * Z * list Z) : Z * Z * Z * option (list Z) :=
+  let '(p, w, port, t) := a in (p, w, port, Some t).
+
 Definition srv_targets_text (ans : list answer) : Prop :=
   Forall (fun a => match a with AnsSrv _ _ _ t => text_labels t | AnsOther => True end) ans.
 
